@@ -1,10 +1,64 @@
-(* C08 - XML value encoding and decoding are inverse for every supported value. *)
+(* C08 - XML value encoding and decoding are inverse for every supported value.
+   Full statement (for every supported value v in the domain D, and both settings of include_xmlns):
+       decode (read (xml_encode v)) = canon v       where canon only strips leading/trailing whitespace of text.
+   Proved below at full strength, through the model's own XML reader, for Boolean, the eight integer types (integers of
+   any size), Float/Double (any finite or infinite float, given CPython's float(repr(x)) = x), String and Guid (EVERY
+   character string without a carriage return), enumeration values, and - at tree level - for lists of decodable items.
+   C08_roundtrip_partial: the text-level theorem is NOT yet proved for DateTime, ByteString, LocalizedText, EUInformation,
+   Range, ExtensionObject and for lists at text level; for these the model is tied to the code by the correspondence run and
+   the property is decided on the implementation by the oracle. *)
 From Coq Require Import String Ascii List Bool ZArith.
-Require Import PyStr PyInt Sexp Xml M_C09 M_C08.
+Require Import PyStr PyInt Sexp Xml M_C09 M_C08 T_C08.
 Import ListNotations.
+Open Scope char_scope.
 
-(* the writer's spelling of any well-named tree parses back to exactly that tree, whatever characters the text and
-   the attribute values contain *)
-Theorem C08_xml_roundtrip : forall t, tree_ok t = true -> has CR (spell_tree t) = false -> xparse (spell_tree t) = Some t.
-Proof. exact xparse_spell. Qed.
+(* the writer's spelling of any well-named tree parses back to exactly that tree, whatever characters the text and the
+   attribute values contain: content can never break the markup *)
+Theorem C08_xml_roundtrip : forall q t, tree_ok t = true -> has CR (spell_treeq q t) = false -> xparse (spell_treeq q t) = Some t.
+Proof. exact xparse_spellq. Qed.
+Theorem C08_string : forall E b s, has CR s = false ->
+  decode_text E (negb b) (encode b (VString (Some s))) = Ok (VString (canon_text (Some s))).
+Proof. exact roundtrip_string. Qed.
+Theorem C08_string_null : forall E b, decode_text E (negb b) (encode b (VString None)) = Ok (VString None).
+Proof. exact roundtrip_string_null. Qed.
+Theorem C08_guid : forall E b s, has CR s = false ->
+  decode_text E (negb b) (encode b (VGuid (Some s))) = Ok (VGuid (canon_text (Some s))).
+Proof. exact roundtrip_guid. Qed.
+Theorem C08_guid_null : forall E b, decode_text E (negb b) (encode b (VGuid None)) = Ok (VGuid None).
+Proof. exact roundtrip_guid_null. Qed.
+Theorem C08_bool : forall E b v, decode_text E (negb b) (encode b (VBool v)) = Ok (VBool v).
+Proof. exact roundtrip_bool. Qed.
+Theorem C08_int : forall E b k z, (ikind_unsigned k = true -> (0 <= z)%Z) ->
+  decode_text E (negb b) (encode b (VInt k (Some z))) = Ok (VInt k (Some z)).
+Proof. exact roundtrip_int. Qed.
+Theorem C08_int_null : forall E b k, decode_text E (negb b) (encode b (VInt k None)) = Ok (VInt k None).
+Proof. exact roundtrip_int_null. Qed.
+Theorem C08_float : forall E b d r, fparse E r = Ok r -> plain r = true -> str_eqb r (lit "nan") = false ->
+  decode_text E (negb b) (encode b (VFloat d (Some r))) = Ok (VFloat d (Some r)).
+Proof. exact roundtrip_float. Qed.
+Theorem C08_float_null : forall E b d, decode_text E (negb b) (encode b (VFloat d None)) = Ok (VFloat d None).
+Proof. exact roundtrip_float_null. Qed.
+Theorem C08_enum_as_int32 : forall b z s n, encode b (VEnum z s n) = encode b (VInt KInt32 z).
+Proof. exact enum_written_as_int32. Qed.
+Theorem C08_list_tree : forall E tn attrs children items,
+  Forall2 (fun c v => decode E c = Ok v) children items ->
+  (match items with [] => true | first :: _ => forallb (isinstance_of first) items end) = true ->
+  decode E (NElem TYPES_NS (lit "ListOf" ++ tn) attrs None children) = Ok (VList tn items).
+Proof. exact decode_list. Qed.
+(* faithful to the code: NaN is written as an empty element and read back as null (known finding C08-nan-to-null) *)
+Theorem C08_float_nan_refuted : forall E b d, decode_text E (negb b) (encode b (VFloat d (Some (lit "nan")))) = Ok (VFloat d None).
+Proof. exact float_nan_refuted. Qed.
+
 Print Assumptions C08_xml_roundtrip.
+Print Assumptions C08_string.
+Print Assumptions C08_string_null.
+Print Assumptions C08_guid.
+Print Assumptions C08_guid_null.
+Print Assumptions C08_bool.
+Print Assumptions C08_int.
+Print Assumptions C08_int_null.
+Print Assumptions C08_float.
+Print Assumptions C08_float_null.
+Print Assumptions C08_enum_as_int32.
+Print Assumptions C08_list_tree.
+Print Assumptions C08_float_nan_refuted.
